@@ -13,20 +13,12 @@ def ptResult (r : Option Bs) : Json :=
   | some pt => .obj [("ok", .bool true), ("pt", .str (hexOfNats pt))]
   | none => .obj [("ok", .bool false)]
 
-/-- bytes of the RAND_bytes tape consumed by key wrapping before the content IV is drawn -/
-def wrapRandUse (name : String) (cekHadK : Bool) (enc : Option String) : Nat :=
-  let cekBytes := if cekHadK || name == "dir" then 0 else ((enc.bind Jwe.encKeyLen).getD 0)
-  cekBytes + (match Jwe.wrapFamily name with
-    | some (.gcmkw _) => 12
-    | some (.pbes2 _ _ k) => k
-    | _ => 0)
-
 def jweOps : List (String × (Json → Json)) := [
   ("jwe.enc_jwk", fun a =>
     match a.get? "jwe", a.get? "jwk", a.get? "cek" with
     | some jwe, some jwk, some cek =>
-      (match Jwe.encJwkOne realPrims jwe (a.get? "rcp") jwk cek (tapeOf a) with
-       | some (j, c) => .obj [("ok", .bool true), ("jwe", j), ("cek", c)]
+      (match Jwe.encJwk realPrims jwe (a.get? "rcp") jwk cek (tapeOf a) with
+       | some (j, c, _) => .obj [("ok", .bool true), ("jwe", j), ("cek", c)]
        | none => .obj [("ok", .bool false)])
     | _, _, _ => .obj [("ok", .bool false)]),
   ("jwe.enc_cek", fun a =>
@@ -39,15 +31,7 @@ def jweOps : List (String × (Json → Json)) := [
     | _, _ => .obj [("ok", .bool false)]),
   ("jwe.enc", fun a =>
     match a.get? "jwe", a.get? "jwk" with
-    | some jwe, some jwk =>
-      let tape := tapeOf a
-      (match Jwe.encJwkOne realPrims jwe (a.get? "rcp") jwk (.obj []) tape with
-       | some (j, c) =>
-         let name := ((Entity.jweHdr j (some (match j.get? "recipients" with
-            | some (.arr l) => l.getLast?.getD j | _ => j))).bind (·.getStr? "alg")).getD ""
-         let used := wrapRandUse name false (c.getStr? "alg")
-         okWith "jwe" (Jwe.encCek realPrims j c ((argHex? a "pt").getD []) (tape.drop used))
-       | none => .obj [("ok", .bool false)])
+    | some jwe, some jwk => okWith "jwe" (Jwe.encAll realPrims jwe (a.get? "rcp") jwk ((argHex? a "pt").getD []) (tapeOf a))
     | _, _ => .obj [("ok", .bool false)]),
   ("jwe.dec_jwk", fun a =>
     match a.get? "jwe", a.get? "jwk" with
